@@ -45,7 +45,8 @@ class Extraction:
 
 
 def includes_for(extra=()):
-    return [os.path.join(REPO, "src", "Imath"), make_config()] + list(extra)
+    # stubs first: an empty <x86intrin.h> (half.h includes it only for the F16C path) keeps the AST small
+    return [os.path.join(VERIF, "stubs"), os.path.join(REPO, "src", "Imath"), make_config()] + list(extra)
 
 
 def run_extraction(name, driver_text, wanted, extra_includes=(), defines=(), std="c++17", externals=None,
@@ -191,7 +192,8 @@ static double vf_pool_d (void)
     return (double) ((int64_t) (r >> 20) % 2000001 - 1000000) / 1000.0;
 }
 static long vf_small (void) { uint64_t r = vf_rnd (); return (long) (r >> 16) % 41 - 20; }
-static int vf_pool_i (void) { uint64_t r = vf_rnd (); return (r % 3) ? (int) vf_small () : (int) ((r >> 8) % 65536) - 32768; }
+static int vf_pool_i (void) { uint64_t r = vf_rnd (); return (r % 4 < 2) ? (int) ((r >> 8) % 4) : ((r % 4 == 2) ? (int) vf_small () : (int) ((r >> 8) % 65536) - 32768); }
+static int vf_pool_iparam (void) { return (int) ((vf_rnd () >> 16) & 1); } /* int PARAMETERS are indices in this library: stay in range of the smallest dimension */
 static unsigned vf_pool_u (void) { uint64_t r = vf_rnd (); return (r % 3) ? (unsigned) (vf_small () + 20) : (unsigned) (r >> 16); }
 static short vf_pool_s (void) { return (short) (vf_small () * 3); }
 static unsigned short vf_pool_us (void) { uint64_t r = vf_rnd (); return (unsigned short) (r >> 16); }
@@ -286,7 +288,7 @@ def differential(ex, outdir, seed, skip=()):
                     cmps.append("VF_EQ_FP (x%d, y%d)" % (i, i) if base in ("float", "double") else "(x%d == y%d)" % (i, i))
                 else:
                     decls.append("%s x%d, y%d;" % (base, i, i))
-                    fills.append("x%d = %s (); y%d = x%d;" % (i, POOLS[base], i, i))
+                    fills.append("x%d = %s (); y%d = x%d;" % (i, "vf_pool_iparam" if base == "int" else POOLS[base], i, i))
             else:
                 good = False
                 break
@@ -333,7 +335,7 @@ def differential(ex, outdir, seed, skip=()):
         drv.append("\n".join(body))
         calls.append("    test_%s ();" % cn)
         tested.append(cn)
-    drv.append("int main (int argc, char **argv)\n{\n    if (argc > 1) vf_rs ^= strtoull (argv[1], 0, 10) * 0x9E3779B97F4A7C15ull;\n    signal (SIGFPE, vf_fpe);\n%s\n    printf (\"cases %%d bad %%d\\n\", vf_cases, vf_bad);\n    return vf_bad ? 1 : 0;\n}" % "\n".join(calls))
+    drv.append("int main (int argc, char **argv)\n{\n    if (argc > 1) vf_rs ^= strtoull (argv[1], 0, 10) * 0x9E3779B97F4A7C15ull;\n    signal (SIGFPE, vf_fpe); signal (SIGSEGV, vf_fpe); signal (SIGBUS, vf_fpe); /* traps = undefined-behaviour inputs (index out of range, division by zero): case skipped */\n%s\n    printf (\"cases %%d bad %%d\\n\", vf_cases, vf_bad);\n    return vf_bad ? 1 : 0;\n}" % "\n".join(calls))
     dpath = os.path.join(outdir, ex.name + ".diff.c")
     _write(dpath, "\n".join(drv))
     res = {"tested": len(tested), "skipped": skipped, "cases": 0, "mismatches": [], "functions": tested}
